@@ -14,6 +14,7 @@ structure DState where
   st : LState := {}
   read : List (Nat × Nat) := []      -- responses already read per connection
   void : Bool := false               -- an operation fell into the timer's uncertainty window
+  segs : List Nat := []              -- connections that advertised a shared-memory segment
 
 /-- Scheduling latency allowed around a timer deadline (ms): operations that close to a deadline are
 not compared (both sides print `void` from the same arithmetic on the script's own timestamps). -/
@@ -97,6 +98,42 @@ def stepU (d : DState) (ws : List String) : DState × String :=
   | some _, ["stat"] =>
     (d, (if d.st.main = .returned then "closed " else "accepting ") ++ modeStr d.st)
   | some _, ["wait", n] => if n.toNat?.isSome then (d, "ok") else (d, "bad-op")
+  -- the serve-start hook and the transport binding are the environment's: no model state
+  | some _, ["hook", v] => if v = "ok" ∨ v = "fail" then (d, "ok") else (d, "bad-op")
+  | some _, ["rebind"] => (d, "ok")
+  | some C, ["connx", c] =>
+    -- a connection the serve-start hook refuses: accepted, counted, and its serve loop ends at once
+    match c.toNat? with
+    | some c =>
+      match runActs C d.st [.accept c, .count, .connDone c] with
+      | some s => ({ d with st := s }, "hookrefused")
+      | none => (d, "refused")
+    | none => (d, "bad-op")
+  | some C, ["shm", c, x] =>
+    -- a call that also advertises the connection's own shared-memory segment
+    match c.toNat?, x.toNat? with
+    | some c, some x =>
+      if (d.st.outbox c).length ≠ rd d c then (d, "err:pending") else
+      match runActs C d.st [.send c x, .serveOne c] with
+      | some s =>
+        match (s.outbox c)[rd d c]? with
+        | some v => ({ d with st := s, read := (c, rd d c + 1) :: d.read, segs := c :: d.segs }, s!"resp {v}")
+        | none => (d, "err:nothing")
+      | none => (d, "err:closed")
+    | _, _ => (d, "bad-op")
+  | some C, ["pcall", c, x] =>
+    -- a call whose parameters travel as a pointer into the connection's own segment
+    match c.toNat?, x.toNat? with
+    | some c, some x =>
+      if ¬ d.segs.contains c then (d, "err:noseg") else
+      if (d.st.outbox c).length ≠ rd d c then (d, "err:pending") else
+      match runActs C d.st [.send c x, .serveOne c] with
+      | some s =>
+        match (s.outbox c)[rd d c]? with
+        | some v => ({ d with st := s, read := (c, rd d c + 1) :: d.read }, s!"resp {v}")
+        | none => (d, "err:nothing")
+      | none => (d, "err:closed")
+    | _, _ => (d, "bad-op")
   | some _, ["storm", _, _] => (d, "ok mixed=0 lost=0")
   | _, _ => (d, "bad-op")
 
